@@ -58,6 +58,8 @@ META = {
         "(D14, known finding). R7: buoyancy: the interface coupling expression projected with bound_transport_neu @ "
         "mortar_to_primary_int in __entity_buoyancy_flux is term-for-term the one projected with mortar_to_secondary_int in "
         "__entity_buoyancy_jump, and X_buoyancy on the flux side is accompanied by X_buoyancy_jump on the source side. "
+        "R8 (sweep; thorough: all of models/examples/applications): wherever one of the extensive interface/well fluxes found "
+        "above is the right factor of a mortar_to_* projection, the projection is an integrated one. "
         "Not decided: that the values of bound_flux / bound_transport_neu make the two contributions cancel; the numerical "
         "identity itself; inter-cell cancellation (cell_faces signs, C21)."),
     "rule_text": "one obligation per (balance_equation parameter | balance method x context | projected interface flux term | "
@@ -69,7 +71,7 @@ META = {
                     "bound_flux / bound_transport_neu put +/- the prescribed flux on Neumann and internal faces (numerical, not decided)"],
     "technique": "symbolic execution to signed sum-of-products normal form + set/sign comparison",
 }
-MIN_INSTANCES = {"R1": 6, "R2": 5, "R3": 12, "R4": 5, "R5": 8, "R6": 1, "R7": 5}
+MIN_INSTANCES = {"R1": 6, "R2": 12, "R3": 13, "R4": 5, "R5": 12, "R6": 1, "R7": 7, "R8": 13}
 
 
 # ========================================================================================
@@ -374,9 +376,6 @@ class World:
     def _real(fn: ast.FunctionDef) -> bool:
         return not any((dotted(d) or "").endswith("abstractmethod") for d in fn.decorator_list)
 
-    def _mangle(self, name: str, cls: Optional[str]) -> list[str]:
-        return [name]
-
     def lookup(self, ctxcls: str, name: str, defining: Optional[str] = None, is_super: bool = False) -> list[MethodDef]:
         """Definitions self.<name> may denote in context class ctxcls (super(): after `defining` in its MRO)."""
         if is_super:
@@ -441,6 +440,18 @@ class Expansion:
     couplings: list
     opaque: list         # (sign, Atom, conds): single-factor self calls that could not be expanded / carry no coupling
     visited: list        # MethodDef quals expanded
+    alt_mismatch: list = field(default_factory=list)   # (Atom, {qual: sorted flux names}) for disagreeing mixin alternatives
+
+
+def _irregular_projection(a: Atom) -> bool:
+    """The factor is not a plain `P.mortar_to_X_k()` call but involves a projection (to-mortar direction,
+    `.T`, `.transpose()`, wrapped): an idiom this rule does not interpret."""
+    if a.kind == "proj":
+        return a.name in PROJ_TO_MORTAR
+    if a.kind in ("selfcall", "supercall", "name", "item", "opaque") or a.node is None:
+        return False
+    target = a.node.func if isinstance(a.node, ast.Call) else a.node
+    return any(isinstance(n, ast.Attribute) and n.attr in PROJ_TO_GRID | PROJ_TO_MORTAR for n in ast.walk(target))
 
 
 def expand(world: World, ctxcls: str, expr: ast.expr, where: MethodDef, depth: int = 0, stack: tuple = ()) -> Expansion:
@@ -448,6 +459,9 @@ def expand(world: World, ctxcls: str, expr: ast.expr, where: MethodDef, depth: i
     out = Expansion([], [], [])
     for t in terms:
         projs = [i for i, a in enumerate(t.factors) if a.kind == "proj" and a.name in PROJ_TO_GRID]
+        odd = [x for x in t.factors if _irregular_projection(x)]
+        if odd:
+            raise Undecided(f"{where.rel}:{where.qual}: unrecognised use of a mortar projection in a balance term: {odd[0].text[:120]}")
         if projs:
             if len(projs) > 1:
                 raise Undecided(f"{where.rel}:{where.qual}: two grid projections in one product: {' @ '.join(a.text for a in t.factors)[:200]}")
@@ -462,16 +476,22 @@ def expand(world: World, ctxcls: str, expr: ast.expr, where: MethodDef, depth: i
                 out.opaque.append((t.sign, a, t.conds, where))
                 continue
             found_any = False
+            per_alt: dict = {}
             for d in defs:
                 ex = symexec(d.fn, World.bind(d.fn, a.node))
                 for conds, rexpr in ex.returns:
                     sub = expand(world, ctxcls, rexpr, d, depth + 1, stack + (key,))
+                    out.alt_mismatch += sub.alt_mismatch
+                    per_alt.setdefault(d.qual, set()).update(
+                        (c.proj.name.rsplit("_", 1)[0], c.right[0].name if c.right else "?") for c in sub.couplings)
                     for c in sub.couplings:
                         out.couplings.append(Coupling(c.sign * t.sign, c.left, c.proj, c.right, t.conds + conds + c.conds, c.where, c.term))
                         found_any = True
                     for (s, oa, oc, ow) in sub.opaque:
                         out.opaque.append((s * t.sign, oa, t.conds + conds + oc, ow))
                     out.visited += [d.qual] + sub.visited
+            if len(defs) > 1 and len({frozenset(v) for v in per_alt.values()}) > 1:
+                out.alt_mismatch.append((a, {q: sorted(f"{p} @ {n}" for p, n in v) for q, v in per_alt.items()}))
             if not found_any:
                 out.opaque.append((t.sign, a, t.conds, where))
     return out
@@ -632,6 +652,7 @@ def run(ctx: Ctx) -> None:
     seen_r3: set = set()
     seen_r4: set = set()
     seen_r6: set = set()
+    extensive: set[str] = set()     # interface / well flux method names found in the balances (derived, not listed)
     for md, _call in balances:
         contexts = [md.cls.name] + world.subclasses(md.cls.name)
         for cx in contexts:
@@ -672,6 +693,7 @@ def run(ctx: Ctx) -> None:
             for c in sx.couplings:
                 groups.setdefault(c.proj.recv, []).append(c)
             src_set: dict[tuple, Coupling] = {}
+            _multiplicity(ctx, "R3", sx.couplings, seen_r3, cx, "source")
             for recv, cs in groups.items():
                 intf = _intf_arg_of_proj(cs[0].proj)
                 cod = _codims(intf)
@@ -685,6 +707,7 @@ def run(ctx: Ctx) -> None:
                     F = c.right[0]
                     kind = c.proj.name
                     msg = None
+                    extensive.update({F.name, canonical(world, cx, F)[0]})
                     if kind.endswith("_avg"):
                         msg = (f"extensive interface flux {F.name} is projected with {kind}: averaged projections do not preserve the "
                                "total flux (they coincide with _int only on matching grids)")
@@ -702,7 +725,6 @@ def run(ctx: Ctx) -> None:
                         if c.sign != want:
                             msg = (f"well flux {F.name} through {kind} has sign {'+' if c.sign > 0 else '-'}: wells must enter as "
                                    "+ mortar_to_secondary_int - mortar_to_primary_int")
-                    key = (c.where.qual, kind, F.text, c.sign, cx if c.where.cls.name != md.cls.name else "")
                     if (c.where.rel, c.where.qual, _fmt(c)) not in seen_r3 or msg:
                         seen_r3.add((c.where.rel, c.where.qual, _fmt(c)))
                         ctx.check("R3", msg is None, c.where.rel, c.where.qual, c.proj.node,
@@ -724,6 +746,7 @@ def run(ctx: Ctx) -> None:
             # ---- R4 / R6: flux side -------------------------------------------------------------------
             flx_set: dict[tuple, Coupling] = {}
             local_coeff: dict[tuple, list[Coupling]] = {}
+            _multiplicity(ctx, "R4", [c for c in fx.couplings if c.left and c.left[-1].kind == "call"], seen_r4, cx, "face flux")
             for c in fx.couplings:
                 if "buoyancy" in c.where.fn.name:
                     continue  # R7
@@ -754,7 +777,7 @@ def run(ctx: Ctx) -> None:
                 else:
                     raise Undecided(f"{c.where.rel}:{c.where.qual}: unclassified factor `{L.text[:80]}` in front of the projection")
                 if local:
-                    local_coeff.setdefault((c.where.rel, c.where.qual, F.name if False else "interface flux"), []).append(c)
+                    local_coeff.setdefault((c.where.rel, c.where.qual, "interface flux"), []).append(c)
                 else:
                     k = (c.where.rel, c.where.qual, _fmt(c))
                     if k not in seen_r4 or msg:
@@ -762,6 +785,7 @@ def run(ctx: Ctx) -> None:
                         ctx.check("R4", msg is None, c.where.rel, c.where.qual, c.proj.node,
                                   msg or f"+ {L.name} @ {kind} @ {F.name}(..)", construct=f"flux term {_fmt(c)}",
                                   facts={"context": cx, "interfaces": intf})
+                extensive.update({F.name, canonical(world, cx, F)[0]})
                 if msg is None and kind == "mortar_to_primary_int":
                     flx_set[canonical(world, cx, F)] = c
             for (rel, qual, _), cs in local_coeff.items():
@@ -792,6 +816,12 @@ def run(ctx: Ctx) -> None:
                           construct=f"{where_q}: duality of {key[0]}{list(key[1]) if key[1] else ''}",
                           facts={"source_side": sorted(k[0] for k in src_set), "flux_side": sorted(k[0] for k in flx_set), "context": cx})
 
+            for (a, alts) in fx.alt_mismatch + sx.alt_mismatch:
+                ctx.check("R5", False, md.rel, where_q, a.node,
+                          f"the interchangeable (mixin) definitions of self.{a.name} disagree on the interface fluxes they couple: {alts}; "
+                          "with one of them the flux leaves the source side only",
+                          construct=f"alternatives of {a.name}: {alts}", facts={"context": cx})
+
             # ---- R7b: buoyancy flux <-> jump ------------------------------------------------------------
             bf = {a.name for (s, a, cnd, w) in fx.opaque if a.name.endswith("_buoyancy")} | \
                  {c.where.fn.name for c in fx.couplings if c.where.fn.name.endswith("_buoyancy")}
@@ -805,6 +835,75 @@ def run(ctx: Ctx) -> None:
                           facts={"flux": sorted(bf), "source": sorted(bs)})
 
     _r7_buoyancy(ctx, world)
+    _r8_sweep(ctx, extensive)
+
+
+def _r8_sweep(ctx: Ctx, extensive: set) -> None:
+    """Every product `P.mortar_to_X_k() @ F(..)` in the model layer whose right factor is one of the extensive
+    interface / well fluxes found in the balances uses an integrated (_int) projection.  quick: anchored modules;
+    thorough: all of src/porepy/models, examples, applications."""
+    from ..core.astutil import single_assign_value
+    if not extensive:
+        raise AnchorError("no extensive interface flux identified in the balances")
+    rels = list(WORLD)
+    if ctx.tier == "thorough":
+        for sub in ("src/porepy/models", "src/porepy/examples", "src/porepy/applications"):
+            rels += [r for r in ctx.repo.all_py(sub) if r not in rels]
+    dynamic = 0
+    for rel in rels:
+        m = ctx.repo.module(rel)
+        for q, fn in m.functions():
+            for b in [n for n in walk_local(fn) if isinstance(n, ast.BinOp) and isinstance(n.op, ast.MatMult)]:
+                P = b.left.right if isinstance(b.left, ast.BinOp) and isinstance(b.left.op, ast.MatMult) else b.left
+                if not (isinstance(P, ast.Call) and isinstance(P.func, ast.Attribute) and P.func.attr in PROJ_TO_GRID and not P.args):
+                    continue
+                R = b.right
+                for _ in range(3):
+                    if isinstance(R, ast.Name):
+                        v = single_assign_value(fn, R.id)
+                        if v is None:
+                            break
+                        R = v
+                names = set()
+                for c in [n for n in ast.walk(R) if isinstance(n, ast.Call)]:
+                    if isinstance(c.func, ast.Attribute) and isinstance(c.func.value, ast.Name) and c.func.value.id == "self":
+                        names.add(c.func.attr)
+                    elif isinstance(c.func, ast.Call) and (dotted(c.func.func) or "") == "getattr":
+                        dynamic += 1
+                hit = sorted(names & extensive)
+                if not hit:
+                    continue
+                # only the outermost calls of R count as the projected quantity: R itself or a sum of calls
+                ctx.check("R8", P.func.attr.endswith("_int"), m, q, P,
+                          f"extensive flux {hit} is projected with {P.func.attr}: only integrated projections preserve totals "
+                          "(averaged ones coincide with them on matching grids only)",
+                          construct=f"{P.func.attr}() @ {hit}", facts={"fluxes": hit})
+    if dynamic:
+        ctx.note(f"R8: {dynamic} projected getattr(self, 'interface_' + name)(..) site(s) are covered through R4/R6 (bound per caller), not by the sweep")
+
+
+def _multiplicity(ctx: Ctx, rule: str, couplings: list, seen: set, cx: str, side: str) -> None:
+    """An interface flux must be projected into one expression exactly once per assembling method
+    (a second copy doubles the transfer on one side only)."""
+    from collections import Counter
+    cnt: Counter = Counter()
+    first: dict = {}
+    for c in couplings:
+        if "buoyancy" in c.where.fn.name:
+            continue
+        k = (c.where.rel, c.where.qual, c.sign, tuple(a.text for a in c.left), c.proj.text, tuple(a.text for a in c.right), c.conds)
+        cnt[k] += 1
+        first.setdefault(k, c)
+    for k, n in cnt.items():
+        if n > 1:
+            c = first[k]
+            kk = (k[0], k[1], "mult", _fmt(c))
+            if kk in seen:
+                continue
+            seen.add(kk)
+            ctx.check(rule, False, c.where.rel, c.where.qual, c.proj.node,
+                      f"the same projected interface flux term occurs {n} times in the {side} assembled by {c.where.qual}",
+                      construct=f"{n} x {_fmt(c)}", facts={"context": cx})
 
 
 def _r7_buoyancy(ctx: Ctx, world: World) -> None:
@@ -907,6 +1006,14 @@ MUTANTS = [
        "        return self.interface_darcy_flux(interfaces)\n\n    def well_fluid_flux", "        return self.well_flux(interfaces)\n\n    def well_fluid_flux", "R5"),
     _m("component-flux-couples-total-flux", CF, "                partial(self.interface_component_flux, component),\n            ),\n        )\n        flux.set_name(f\"component_flux_",
        "                self.interface_fluid_flux,\n            ),\n        )\n        flux.set_name(f\"component_flux_", "R5"),
+    _m("fluid-flux-couples-darcy-flux", FMB, "            self.boundary_fluid_flux(domains),\n            self.interface_fluid_flux,\n",
+       "            self.boundary_fluid_flux(domains),\n            self.interface_darcy_flux,\n", "R5"),
+    _m("fourier-flux-drops-interface-term", CL, "                boundary_operator_fourier\n                + projection.mortar_to_primary_int()\n                @ self.interface_fourier_flux(interfaces)\n",
+       "                boundary_operator_fourier\n", "R5"),
+    _m("cf-energy-source-without-super", CF, "        source = super().energy_source(subdomains)\n", "        source = pp.ad.Scalar(0.0) * self.enthalpy_buoyancy_jump(subdomains)\n", "R5"),
+    _m("fluid-source-doubled", FMB, '        source.set_name("interface_fluid_flux_source")', '        source += source\n        source.set_name("interface_fluid_flux_source")', "R3"),
+    _m("pressure-trace-projects-flux-avg", CL, "                projection.mortar_to_primary_int()\n                @ self.interface_darcy_flux(interfaces)",
+       "                projection.mortar_to_primary_avg()\n                @ self.interface_darcy_flux(interfaces)", "R8"),
     _m("buoyancy-jump-other-coupling", FPL,
        "            interface_coupling_intf = (\n                gamma_interface * delta_interface\n            ) * intf_w_flux_gamma_delta\n            b_flux_jump_gamma_delta",
        "            interface_coupling_intf = (\n                gamma_interface * gamma_interface\n            ) * intf_w_flux_gamma_delta\n            b_flux_jump_gamma_delta", "R7"),
